@@ -94,6 +94,10 @@ func ByteStreamConsumer(opts ...byteStreamOpt) Consumer {
 		case encoding.BinaryUnmarshaler:
 			return destinationPointer.UnmarshalBinary(b)
 		case *any:
+			if destinationPointer == nil {
+				return errors.New("nil pointer destination for ByteStreamConsumer")
+			}
+
 			switch (*destinationPointer).(type) {
 			case string:
 				*destinationPointer = string(b)
@@ -109,6 +113,10 @@ func ByteStreamConsumer(opts ...byteStreamOpt) Consumer {
 			// check for the underlying type to be pointer to []byte or string,
 			if ptr := reflect.TypeOf(data); ptr.Kind() != reflect.Ptr {
 				return errors.New("destination must be a pointer")
+			}
+
+			if reflect.ValueOf(data).IsNil() {
+				return errors.New("nil pointer destination for ByteStreamConsumer")
 			}
 
 			v := reflect.Indirect(reflect.ValueOf(data))
@@ -193,6 +201,10 @@ func ByteStreamProducer(opts ...byteStreamOpt) Producer {
 			return err
 
 		default:
+			if rv := reflect.ValueOf(data); rv.Kind() == reflect.Ptr && rv.IsNil() {
+				return errors.New("nil pointer data for ByteStreamProducer")
+			}
+
 			v := reflect.Indirect(reflect.ValueOf(data))
 			t := v.Type()
 
